@@ -184,7 +184,8 @@ let get_fm geto name =
   | Some s -> fmat (imatrix s)
 
 let is_zero x = let b = bf x in b = 0 || b = 0x80000000
-let gt_one b = let x = ocaml_float b in x > 1.0
+(* a base for which log_b 0 = -inf: finite and > 1 (log_inf 0 = -inf/inf is NaN) *)
+let gt_one b = let x = ocaml_float b in x > 1.0 && x < infinity
 
 (* ---------- C09 ---------- *)
 let c09_scores al k get geto (sm : f32 list list) =
@@ -323,6 +324,17 @@ let cmp_bg_result model obs =
   | _, `Ok _ -> df "accepted-model-rejects"
   | _, _ -> df "model-result-kind"
 
+(* property: frequencies = counts / total, Err when the total is 0 *)
+let check_bg_obs name counts obs =
+  let r = (match obs with
+      | `Ok s -> Some (Ok (frow (ints s)))
+      | `Err -> Some (Err O)
+      | `P -> None) in
+  match r with
+  | None -> ()   (* reported as unexpected-panic by cmp_bg_result *)
+  | Some r -> if not (check_bg_counts (q_of_frac 1 1000000) counts r)
+      then pf (Printf.sprintf "background-%s-not-counts/total" name)
+
 let c09_case line_in obs_s =
   let fi = fields line_in and fo = fields obs_s in
   let get k = List.assoc_opt k fi and geto k = List.assoc_opt k fo in
@@ -343,13 +355,18 @@ let c09_case line_in obs_s =
         cmp_bg_result (bg_new ops v) obs
     | "bgcnt" ->
         let c = List.map n_of_int (ints (Option.get (get "c"))) in
-        cmp_bg_result (bg_from_counts ops c) (bg_result geto)
+        let obs = bg_result geto in
+        check_bg_obs "from_counts" c obs;
+        cmp_bg_result (bg_from_counts ops c) obs
     | "bgseq" ->
         let seqs = parse_seqs al (Option.get (get "seqs")) in
         let unk = Option.get (get "unk") = "1" in
+        (* multi=1: from_sequences; multi=0: from_sequence(slice); multi=2: from_sequence(striped) *)
         let seqs = if Option.get (get "multi") = "1" then seqs
           else (match seqs with s :: _ -> [s] | [] -> [[]]) in
-        cmp_bg_result (bg_from_sequences ops k seqs unk) (bg_result geto)
+        let obs = bg_result geto in
+        check_bg_obs "from_sequence(s)" (bg_counts_spec k seqs unk) obs;
+        cmp_bg_result (bg_from_sequences ops k seqs unk) obs
     | "uni" -> cmp_bg_result (Ok (bg_uniform ops k)) (bg_result geto)
     | "fnew" ->
         let m = fmat (imatrix (Option.get (get "m"))) in
@@ -383,7 +400,8 @@ let c10_case line_in obs_s =
   if not (check_rc_N cm c1) then pf "count-rc-not-reversal+complement";
   if not (cm_same c2 cm) then pf "count-rc-twice-not-identity";
   if not (cm_same (rc_N cm) c1) then df "count-rc-model";
-  if geto "c1n" <> geto "n" || geto "c2n" <> geto "n" then df "count-rc-sequence-count";
+  if geto "c2n" <> geto "n" then pf "count-rc-twice-changed-sequence-count";
+  if geto "c1n" <> geto "n" then df "count-rc-sequence-count";
   (* frequencies *)
   let psspec = Option.get (get "ps") in
   let pseudo = pseudo_of k psspec in
@@ -433,6 +451,13 @@ let c10_case line_in obs_s =
   if not (check_rc_f32 sm r1) then pf "scoring-rc-not-reversal+complement (raw)";
   if not (fm_same r2 sm) then pf "scoring-rc-twice-not-identity (raw)";
   if not (fm_same (rc_f32 sm) r1) then df "raw-rc-model";
+  let gbg name = match geto name with Some b -> frow (ints b) | None -> df_stop ("missing-observation " ^ name) in
+  List.iter (fun name ->
+      if not (row_same wbg (gbg name)) then pf (Printf.sprintf "rc-twice-changed-background %s" name))
+    ["w2bg"; "s2bg"; "r2bg"];
+  List.iter (fun name ->
+      if not (row_same wbg (gbg name)) then df (Printf.sprintf "rc-background-model %s" name))
+    ["s1bg"; "r1bg"];
   (* both strands *)
   let seq = parse_seq al (Option.value (get "seq") ~default:"-") in
   let rseq = parse_seq al (Option.get (geto "rseq")) in
